@@ -180,3 +180,21 @@ func RepoFile(rel string) string {
 	}
 	return string(data)
 }
+
+// All / Any combine conditions WITHOUT branching (Go's && and || compile to branches, which fork the
+// symbolic executor); use them in oracles over symbolic values.
+func All(conds ...bool) bool {
+	r := true
+	for _, c := range conds {
+		r = r && c
+	}
+	return r
+}
+
+func Any(conds ...bool) bool {
+	r := false
+	for _, c := range conds {
+		r = r || c
+	}
+	return r
+}
